@@ -80,6 +80,10 @@ def run(pid, tier):
     bdir = vlib.scratch(pid)
     verdict = vlib.Verdict(pid)
     try:
+        mc = vlib.run_tlc(os.path.join(vlib.SPEC, "Ldpc2D_MC.tla"), os.path.join(vlib.SPEC, "Ldpc2D_%s.cfg" % tier),
+                          os.path.join(bdir, "mc"), workers=8, xmx="6g", timeout=3000)
+        if mc.violated or "Model checking completed. No error" not in mc.out:
+            raise vlib.Infra("Ldpc2D_MC: the IT/ML models violate an invariant on a product parity code:\n" + mc.out[-3000:])
         drv = vlib.build_driver(bdir)
         pts, acc = probe_accepted(bdir, drv)
         if not acc:
@@ -94,7 +98,8 @@ def run(pid, tier):
         rc = verdict.finish()
         st = apicheck.stats_summary(api)
         cov = {
-            "states": api["distinct"], "transitions": api["states"],
+            "states": mc.distinct + api["distinct"], "transitions": mc.states + api["states"],
+            "model_runs": [{"spec": "Ldpc2D_MC", "cfg": "Ldpc2D_" + tier, "distinct": mc.distinct, "generated": mc.states}],
             "traces_validated_against_impl": api["execs"],
             "samples": apicheck.sample_execs(lines, 3),
             "evaluations": len(execs),
